@@ -74,6 +74,11 @@ def table(stage: Optional[str], snapshot: Optional[str], span: Optional[str], me
         if v is not None:
             args[k] = v
     watches = ["w1"]
+    # history independence: an EARLIER tracepoint with explicit, non-default values for every argument is built first (one
+    # poll response / process builds many); what is decided for tp1 depends on tp1's own arguments only
+    build_trigger("tp0", "g.py", 3, {"fire_count": "7", "fire_period": "3", "snapshot": "collect", "span": "line", "log_msg": "earlier",
+                                     "condition": "earlier_cond", "frame_type": "all_frame", "stack_type": "no_stack",
+                                     "method_name": "earlier_fn", "stage": "method_start"}, ["w0"], _metric_defs(1))
     trig = build_trigger("tp1", "f.py", 7, args, watches, _metric_defs(nm))
     world.reached()
     loc = _ref_location(stage, method_name, span)
